@@ -88,8 +88,8 @@ func (g *gen) add(class, format string, data []byte) {
 	// The extracted models are slow on deep or wide documents above 16 KiB (the WKB model measures
 	// the unread length in unary at every loop entry: tens of seconds each): in the quick tier
 	// these are marked and the driver evaluates only the executable statement on them (thorough:
-	// compared with the models as well).
-	if !g.thorough && len(data) > 16384 && (class == "deepnest" || class == "amplify") {
+	// compared with the models as well, except TWKB, whose model needs minutes per document).
+	if (!g.thorough || format == "twkb") && len(data) > 16384 && (class == "deepnest" || class == "amplify") {
 		class += "_big"
 	}
 	g.ins = append(g.ins, input{class: class, fmt: format, data: append([]byte(nil), data...)})
